@@ -236,6 +236,30 @@ def debug_mismatches(pid, plugin, cases, outs, mism, n=3):
             print('model:', (p.stdout + p.stderr)[:4000])
             shutil.rmtree(d, ignore_errors=True)
 
+def shrink_list(case, field, oracle, max_tries=400):
+    """Delta-debugging on case[field] (a list): delete elements while oracle(case) still fails."""
+    import copy
+    best = copy.deepcopy(case)
+    tries = 0
+    changed = True
+    while changed and tries < max_tries:
+        changed = False
+        i = 0
+        while i < len(best[field]) and tries < max_tries:
+            cand = copy.deepcopy(best)
+            del cand[field][i]
+            tries += 1
+            try:
+                bad = oracle(cand)
+            except Exception:
+                bad = None
+            if bad:
+                best = cand
+                changed = True
+            else:
+                i += 1
+    return best
+
 # ---------------------------------------------------------------- known findings
 def load_known():
     """Lines:  finding: property=<id> key=<key> <text>   |   fixed: property=<id> <commit> <text>"""
